@@ -186,6 +186,50 @@ pub fn parse_ast_file(path: &Path, src: &str) -> Result<ast::File, CompilationEr
     Ok(ast)
 }
 
+/// Parses a file other than the entry file. A diagnostic carries a range but not the file it
+/// points into, and callers resolve ranges against the entry text; so the position is resolved
+/// here, against the right text, and becomes part of the message.
+pub fn parse_ast_file_located(path: &Path, src: &str) -> Result<ast::File, CompilationError> {
+    parse_ast_file(path, src).map_err(|err| {
+        let index = line_index::LineIndex::new(src);
+        let mut located = Diagnostics::new();
+        for diagnostic in err.diagnostics().iter() {
+            let message = match diagnostic.range() {
+                Some(range) => {
+                    let line_col = index.line_col(range.start());
+                    format!(
+                        "{}:{}:{}: {}",
+                        path.display(),
+                        line_col.line + 1,
+                        line_col.col + 1,
+                        diagnostic.message()
+                    )
+                }
+                None => format!("{}: {}", path.display(), diagnostic.message()),
+            };
+            located.push(Diagnostic::new(
+                diagnostic.stage().clone(),
+                diagnostic.severity(),
+                message,
+            ));
+        }
+        match err {
+            CompilationError::Parser { .. } => CompilationError::Parser {
+                diagnostics: located,
+            },
+            CompilationError::Lower { .. } => CompilationError::Lower {
+                diagnostics: located,
+            },
+            CompilationError::Typer { .. } => CompilationError::Typer {
+                diagnostics: located,
+            },
+            CompilationError::Compile { .. } => CompilationError::Compile {
+                diagnostics: located,
+            },
+        }
+    })
+}
+
 fn typecheck_package(
     package_id: hir::PackageId,
     package: &packages::PackageUnit,
